@@ -273,3 +273,42 @@ Proof.
     + clear Hnd. induction (ss_enum ss) as [|x l IH]; simpl; [reflexivity| rewrite IH; reflexivity].
     + intros o Ho. symmetry. apply omem_In, Ho.
 Qed.
+
+(* a filter of a duplicate-free enumeration is the filter by membership in itself *)
+Lemma filter_self_mem (l : list outcome) (P : outcome -> bool) :
+  NoDup l -> filter P l = filter (fun o => omem o (filter P l)) l.
+Proof.
+  intros Hl. apply filter_ext_in.
+  intros o Ho. destruct (P o) eqn:E.
+  - symmetry. apply omem_In, filter_In. auto.
+  - symmetry. destruct (omem o (filter P l)) eqn:E2; [| reflexivity].
+    apply omem_In, filter_In in E2. destruct E2; congruence.
+Qed.
+
+Lemma keys_reorder_order ss t :
+  NoDup (ss_enum ss) ->
+  keys (reorder ss t) = filter (fun o => omem o (keys (reorder ss t))) (ss_enum ss).
+Proof. intros H. rewrite keys_reorder. apply filter_self_mem, H. Qed.
+
+Lemma get0_reorder ss t o : omem o (ss_enum ss) = true -> get0 o (reorder ss t) = get0 o t.
+Proof. intros H. unfold get0. rewrite find_key_reorder, H. reflexivity. Qed.
+
+Lemma find_key_combine (os : list outcome) (vs : list Q) o v :
+  NoDup os -> In (o, v) (combine os vs) -> find_key o (combine os vs) = Some v.
+Proof.
+  revert vs; induction os as [|k os IH]; intros [|w vs] Hn Hin; simpl in *; try contradiction.
+  inversion Hn as [|? ? Hk Hn']; subst.
+  destruct Hin as [E|Hin].
+  - inversion E; subst. rewrite oeqb_refl. reflexivity.
+  - destruct (oeqb_spec k o) as [->|Hne].
+    + exfalso. apply Hk. apply in_combine_l in Hin. exact Hin.
+    + apply IH; assumption.
+Qed.
+
+Lemma find_key_notin_combine (os : list outcome) (vs : list Q) o :
+  ~ In o os -> find_key o (combine os vs) = None.
+Proof.
+  intros H. apply find_key_None. intro Hin. apply H.
+  unfold keys in Hin. apply in_map_iff in Hin as [[k v] [E Hin]]. simpl in E; subst.
+  apply in_combine_l in Hin. exact Hin.
+Qed.
